@@ -2,7 +2,7 @@
 //@harness c20_size_u64 strength=complete bound="every u64 given as an integer scalar (full domain), loop-free" timeout=600 body=body_u64
 //@harness c20_size_i64 strength=complete bound="every i64 given as an integer scalar (full domain), loop-free" timeout=600 body=body_i64
 //@harness c20_size_ascii5 unwind=8 strength=bounded bound="every ASCII string of <= 5 bytes" timeout=1500 body=body_ascii5
-//@harness c20_size_tb8 unwind=12 strength=bounded bound="all 8-digit numbers followed by ' tB' (the overflow threshold of tb, 2^24, has 8 digits)" timeout=1800 body=body_tb8
+//@harness c20_size_tb8 unwind=12 strength=bounded bound="all 8-digit numbers followed by ' tB' (the overflow threshold of tb, 2^24, has 8 digits)" timeout=3000 body=body_tb8
 //@harness c20_size_gb11 unwind=15 strength=bounded bound="all 11-digit numbers followed by 'Gb' (threshold of gb, 2^34, has 11 digits)" timeout=3000 body=body_gb11 tier=thorough
 //@harness c20_size_mb14 unwind=18 strength=bounded bound="all 14-digit numbers followed by ' mib' (threshold of mb, 2^44, has 14 digits)" timeout=3000 body=body_mb14 tier=thorough
 //@harness c20_size_kb17 unwind=21 strength=bounded bound="all 17-digit numbers followed by 'KB' (threshold of kb, 2^54, has 17 digits)" timeout=3000 body=body_kb17 tier=thorough
